@@ -808,6 +808,10 @@ def arg_value(draw, spec, tags):
         pt = draw(st.sampled_from([".", ".", ","]))
         fr = "".join(str(draw(st.integers(0, 9))) for _ in range(draw(st.integers(1, 6))))
         s = {"int": ip, "frac": ip + pt + fr, ".frac": pt + fr, "int.": ip + pt}[form]
+        if draw(st.integers(0, 5)) == 0:
+            # an octal / hexadecimal constant is a legal coefficient as well (tex.web 448: scan_int)
+            s, _form = draw(int_constant(2 ** 20, [], allow_alpha=False))
+            tags.append("float-from-radix-constant")
         sg = draw(sign_run()).replace(" ", "")
         if closer == ")" or closer == ">" or closer == "]":
             pass
@@ -1147,8 +1151,14 @@ def compare_binding(name, exp, got, env):
         txt = val.replace(",", ".")
         sign = -1 if txt.count("-") % 2 else 1
         body = txt.lstrip("+-")
-        want = sign * Fraction(body if body not in (".",) else "0") if body.strip(".") else Fraction(0)
-        if not isinstance(got, float) or abs(Fraction(got) - want) > Fraction(1, 10 ** 9) * max(1, abs(want)):
+        if body[:1] in ("'", '"'):
+            want = sign * Fraction(int(body[1:], 8 if body[0] == "'" else 16))
+        else:
+            want = sign * Fraction(body if body not in (".",) else "0") if body.strip(".") else Fraction(0)
+        # (a radix constant comes back as the integer it denotes: the same value)
+        types = (int, float) if body[:1] in ("'", '"') else float
+        if not isinstance(got, types) or isinstance(got, bool) or \
+                abs(Fraction(got) - want) > Fraction(1, 10 ** 9) * max(1, abs(want)):
             return {"expected": float(want), "literal": val, "observed": repr(got)[:200]}
         return None
     if kind == "dimen":
